@@ -33,7 +33,7 @@ CLAIMS = {
                  "hands the formula a view of the system's current tree in both modes (shared with C01)."),
         "note": ("What a view contains is C06's business. Vector indexing: VectorialParameterNodeAtInstant.build_from_node and __getitem__ "
                  "by a vector of names are under contract over a one-record structured-array model (three members, one nesting level); "
-                 "enum-member / non-string key vectors, group-valued results and the as-of-date variant are not decided. In-place edits of a tree after a read are not a documented route."),
+                 "enum-member / non-string key vectors, group-valued results and the as-of-date variant are not decided. In-place edits of a tree after a read are not a documented route. Later additions: load_parameters with a preprocessing hook that returns or fails (the memo invariant as exceptional postcondition), get_at_instant spellings, ParameterNode.clone; vector indexing by dates through a bounded stand-in on the real code (labelled bounded)."),
         "technique": "contract-based deductive verification (representation invariant over a symbolic memo, ghost state for lru_cache + SMT)",
         "design_ref": "DESIGN.md section 4 C07",
     },
@@ -52,7 +52,7 @@ CLAIMS = {
                  "ulp-scale terms); rounding options, NaN / inf bases and dtypes are not decided. numpy enters through assumed "
                  "contracts validated against numpy on every run. Obligations the solvers cannot decide (nonlinear interpolation) "
                  "are never reported as violations on their own: the contract's native probe scenarios are run and only a failing "
-                 "real input is reported."),
+                 "real input is reported. Later additions: calc after an earlier calc and an in-place change of the scale (history cases), numpy.any / all / shape."),
         "technique": "contract-based deductive verification (2-D array algebra, reduction nodes compared pointwise, inductive lemmas + SMT)",
         "design_ref": "DESIGN.md section 4 C08, section 3.4",
     },
@@ -111,7 +111,7 @@ CLAIMS = {
                  "indices wrapped to 255, foreign members accepted) were repaired by fix: commits."),
         "note": ("numpy enters through assumed contracts validated against numpy on every run (mask indexing, astype(uint8) = mod 256, "
                  "fancy indexing). Encoding by member NAME (isin / argsort / searchsorted on string arrays) is not under contract and "
-                 "the enum metaclass that builds the tables is modelled, not verified: both are listed as not decided."),
+                 "the enum metaclass that builds the tables is modelled, not verified: both are listed as not decided. Later additions: EnumType.__new__ on four declarations (with aliases) against an assumed contract of the standard library's class creation; a bounded stand-in on real declarations (tables, round trips, members of other enumerations - which found that same-named enumerations were interchangeable; repaired)."),
         "technique": "contract-based deductive verification (symbolic execution over a numpy array algebra + SMT)",
         "design_ref": "DESIGN.md section 4 C15, section 2.6",
     },
@@ -126,7 +126,7 @@ CLAIMS = {
         "note": ("This is a proof that the engine functions implement the meaning function for formulas assumed pure, not a run of "
                  "rule systems: formula bodies, projections/aggregations (C10) and parameters (C06/C07) are outside. Callees enter "
                  "through recording contracts whose own verification is listed in the evidence; formula start dates and stack "
-                 "shapes are enumerated concrete cases, periods are symbolic. Enum default arrays are not covered."),
+                 "shapes are enumerated concrete cases, periods are symbolic. Enum default arrays are not covered. Later additions: default arrays for falsy defaults and text variables, 64-bit integer results for 32-bit variables, the period-consistency check recorded as the first step of _calculate, calculate with a period given as text and with an interrupted sub-calculation, Variable.set (declared defaults of updated variables), the ADD / DIVIDE frame on calculated arrays."),
         "technique": "contract-based deductive verification (symbolic execution of the real source with recording call-site contracts + SMT)",
         "design_ref": "DESIGN.md section 4 C01, section 3.6",
     },
@@ -156,7 +156,7 @@ CLAIMS = {
                  "node current at entry with the value returned, with the real SimpleTracer / FullTracer executed inside."),
         "note": ("File content goes through the assumed numpy.save/load round trip (validated natively per dtype on every run; object "
                  "dtype, i.e. string variables, is known not to load without pickle and is outside the claim); file names through an "
-                 "injective token for str(period) (C05). psutil is an arbitrary real. FlatTrace rendering is not under contract."),
+                 "injective token for str(period) (C05). psutil is an arbitrary real. FlatTrace rendering is not under contract. Later additions: delete of one definition period under every storage setting, a neutralised variable read twice, the ADD / DIVIDE contracts (every piece read through calculate), the spreading rules (known-period test through the holder's view), calculate interrupted by a BaseException."),
         "technique": "contract-based deductive verification (symbolic execution of the real source with recording call-site contracts + SMT)",
         "design_ref": "DESIGN.md section 4 C17",
     },
@@ -168,7 +168,7 @@ CLAIMS = {
                  "it refuses; purge and the cycle check as under C02."),
         "note": ("Every combination of callee outcomes is explored (each recorded callee may return or raise). State mutated by a user "
                  "formula before it raises is outside. That later requests behave as if the failed one never happened follows from "
-                 "the unchanged store and stack proved here plus the C01 contract; it is not a separate obligation."),
+                 "the unchanged store and stack proved here plus the C01 contract; it is not a separate obligation. Later additions: calculate with a BaseException outcome and with a text period, the period check as first step of _calculate, the ADD contract (a failing piece leaves the others)."),
         "technique": "contract-based deductive verification (symbolic execution of the real source with recording call-site contracts + SMT)",
         "design_ref": "DESIGN.md section 4 C18",
     },
@@ -183,7 +183,7 @@ CLAIMS = {
         "note": ("One representative heap shape (two entities, three variables, two-level parameter tree); formula dates are concrete "
                  "cases (earlier / same / between / later), not symbolic. copy.deepcopy and SortedDict are assumed contracts. Three "
                  "genuine defects found here were repaired (fix: commits). Calculations on both systems are not re-derived here "
-                 "(they follow from untouched definitions and the engine contracts)."),
+                 "(they follow from untouched definitions and the engine contracts). Later additions: ParameterNode.clone / ParameterScale.clone (own metadata, children cloned once), falsy redefinitions in Variable.set, a neutralised variable read twice, Parameter.update."),
         "technique": "contract-based deductive verification (heap frame postconditions by symbolic execution)",
         "design_ref": "DESIGN.md section 4 C14",
     },
@@ -202,7 +202,7 @@ CLAIMS = {
                  "only a bounded stand-in on the real code over a stated set of small situations. NOT decided: axes expansion, "
                  "value conversions of check_set_value, document-shape dispatch. The C05 round trip (CANON idempotent) is an "
                  "assumption. Three genuine defects were repaired by fix: commits (raw vs canonical key, string-ordered flush, "
-                 "id collision of persons left out)."),
+                 "id collision of persons left out). Later additions: two more bounded stand-ins on the real code (a situation with an axis equals the concatenation of its copies; declared values are read as the variable's type or refused), Holder.set_input and the spreading rules."),
         "technique": "contract-based deductive verification (maps over an uninterpreted key sort, recording call-site contracts + SMT; one bounded stand-in)",
         "design_ref": "DESIGN.md section 4 C12",
     },
@@ -217,7 +217,7 @@ CLAIMS = {
                  "one group holder; table loops unrolled); Holder.clone enters Population/Simulation.clone through its contract. "
                  "Independence under later operation sequences is derived from disjoint owned footprints, for mutators whose frames "
                  "are checked under C17/C18; files on disk are outside the heap model. While the known finding is open the property "
-                 "does not hold for disk-backed variables."),
+                 "does not hold for disk-backed variables. Later additions: an eternal variable's holder (storage settings), Population.clone after person.household was used (no attribute of the clone reaches the original, not even through a projector), storages never write arrays in place."),
         "technique": "contract-based deductive verification (heap separation / frame postconditions by symbolic execution)",
         "design_ref": "DESIGN.md section 4 C13",
     },
@@ -231,7 +231,7 @@ CLAIMS = {
         "note": ("Floats are reals (float32 rounding of shares not modelled). The holder's store enters through call-site "
                  "contracts of Holder.get_array/_set/_to_array over a ghost view keyed by piece; Instant/Period.offset through their "
                  "C04 contracts; numpy through the array algebra (validated against numpy per run). The routing in Holder.set_input "
-                 "is not yet under contract. One genuine defect (dispatch reused an existing array) was repaired by a fix: commit."),
+                 "is not yet under contract. One genuine defect (dispatch reused an existing array) was repaired by a fix: commit. Later additions: an input given again goes through the rule again (history case), summing through the ADD contract and its calendar callees, the purge."),
         "technique": "contract-based deductive verification (loop invariants, ghost state, inductive lemmas + SMT)",
         "design_ref": "DESIGN.md section 4 C16",
     },
@@ -262,7 +262,7 @@ CLAIMS = {
                  "for a five-entry document (loops over concrete dicts are unrolled). ISO date texts are compared through their "
                  "integer order embedding (validated exhaustively per run for 4-digit years). period.stop and Instant.offset enter "
                  "through their C04 contracts. ParameterScale at an instant is covered with the tax scales (C08), YAML loading is "
-                 "outside. One false alarm of an earlier version of the postcondition is recorded in DESIGN.md section 9."),
+                 "outside. One false alarm of an earlier version of the postcondition is recorded in DESIGN.md section 9. Later additions: reads through every spelling of an instant (ISO date, ISO week date, month), Parameter._get_at_instant after the history was replaced by one as long (history case)."),
         "technique": "contract-based deductive verification (loop invariants over closure lists + SMT)",
         "design_ref": "DESIGN.md section 4 C06, section 3.3",
     },
@@ -276,7 +276,7 @@ CLAIMS = {
         "note": ("Simulation.calculate enters through a call-site contract (raises, or returns the opaque value of the variable at "
                  "that period); sub-period and size functions through their C04 contracts. Cross-family cells accepted by the unit "
                  "weights are asserted neither way. Two genuine defects found by this check were repaired by fix: commits "
-                 "(known_findings.json). Same trusted base as C04."),
+                 "(known_findings.json). Same trusted base as C04. Later additions: the period-consistency check is proved first in _calculate and again after an earlier valid request of the same variable (history case)."),
         "technique": "contract-based deductive verification (symbolic path execution of the real source + SMT)",
         "design_ref": "DESIGN.md section 4 C03",
     },
